@@ -51,6 +51,7 @@ State      every execution starts from fresh Connections / tables and, for state
 import itertools
 import json
 import os
+import re
 import textwrap
 
 import beanquery
@@ -287,8 +288,14 @@ class Obs:
         return '[' + ', '.join('(' + ', '.join(show(v) for v in r) + ')' for r in self.rows) + ']'
 
 
+_ADDR = re.compile(r'0x[0-9a-fA-F]+|\b\d{7,}\b')
+
+
 def okey(res):
-    return res.key() if isinstance(res, (Obs, sched.Exc)) else ('NONE', repr(res))
+    if isinstance(res, sched.Exc):
+        # object addresses / id() values in a message differ between executions from fresh state: not an observation
+        return ('EXC', res.type, _ADDR.sub('#', res.msg))
+    return res.key() if isinstance(res, Obs) else ('NONE', repr(res))
 
 
 def otext(res):
@@ -511,20 +518,16 @@ def count_points(mode, sid, seed):
 
 
 def quick_triples(triples):
-    """Deterministic subset for the quick tier: every (a,a,a) and a greedy cover so that every pair of different
-    statements meets in at least one triple of three different statements."""
-    chosen = []
-    covered = set()
-    for t in triples:
-        kinds = len(set(t))
-        take = kinds == 1
-        if kinds == 3:
-            pairs3 = {frozenset(p) for p in itertools.combinations(t, 2)}
-            if not pairs3 <= covered:
-                take = True
-                covered |= pairs3
-        if take:
-            chosen.append(t)
+    """Deterministic subset for the quick tier: every (a,a,a) and a greedy maximum cover so that every pair of
+    different statements meets in at least one triple of three different statements."""
+    chosen = [t for t in triples if len(set(t)) == 1]
+    distinct = [t for t in triples if len(set(t)) == 3]
+    pairs_of = {t: {frozenset(p) for p in itertools.combinations(t, 2)} for t in distinct}
+    uncovered = set().union(*pairs_of.values()) if distinct else set()
+    while uncovered:
+        best = max(distinct, key=lambda t: (len(pairs_of[t] & uncovered), -distinct.index(t)))
+        chosen.append(best)
+        uncovered -= pairs_of[best]
     return chosen
 
 
